@@ -29,6 +29,7 @@ pub fn ctrls_text_real(cs: &[Control]) -> String {
 
 /// run the real decoder once on `bs`; canonical outcome + bytes consumed
 pub fn decode_outcome(bs: &[u8]) -> String {
+    crate::out::mark(&format!("env.dec {}", hex(bs)));
     let input = bs.to_vec();
     match guarded(move || {
         let mut buf = BytesMut::from(&input[..]);
